@@ -1,0 +1,22 @@
+//go:build verif
+
+package consensus
+
+// Contracts for the verif build tag (comment-only; see /verif/DESIGN.md).
+
+// C17, consensus payloads: whether a PrepareRequest carries a state root is a setting of the
+// network, not of the bytes; a recovery message hands that setting on to the PrepareRequest it
+// contains, so that the nested message is decoded with the layout it was encoded with.
+//@ prop C17
+//@ import io github.com/nspcc-dev/neo-go/pkg/io
+//@ func (*message).DecodeBinary
+//@ assumed
+//@ requires m != nil && io.validR(r)
+//@ modifies *m, r.Err, r.uv, r.r.pos
+//@ ensures io.validR(r)
+//@ func (*recoveryMessage).DecodeBinary
+//@ may-panic
+//@ opt frame off
+//@ opt stable r.r, r.r.in
+//@ requires m != nil && io.validR(r)
+//@ call (*message).DecodeBinary requires[stateroot] arg0 == m.prepareRequest && arg0.stateRootEnabled == m.stateRootEnabled
